@@ -44,6 +44,7 @@ TraceNext ==
      /\ Need(e.reconf_equal, "UnpackedArchiveConfiguresToSameBuild", e.reconf_exit)
      \* files added after configuration (extra_dist directory, find_files match, extra= file) and the
      \* dist target run again through the build tool
+     /\ Need(e.other_formats_missing = <<>>, "EveryArchiveFormatHasTheSameMembers", e.other_formats_missing)
      /\ Need(e.later_exit = 0, "DistAfterTreeChangeSucceeds", e.later_exit)
      /\ Need(e.later_missing = <<>>, "DistAfterTreeChangeContainsTheNewFiles", e.later_missing)
   /\ l' = l + 1 /\ UNCHANGED t
